@@ -26,6 +26,17 @@ pub fn source_files() -> Vec<PathBuf> {
     out
 }
 
+/// Repository sources plus the scenario programs kept under /verif/scenarios/c01.
+pub fn run_corpus_files() -> Vec<PathBuf> {
+    let mut out = source_files();
+    if let Ok(rd) = std::fs::read_dir("/verif/scenarios/c01") {
+        let mut extra: Vec<PathBuf> = rd.filter_map(|e| e.ok()).map(|e| e.path()).filter(|p| p.extension().and_then(|e| e.to_str()) == Some("zy")).collect();
+        extra.sort();
+        out.extend(extra);
+    }
+    out
+}
+
 /// Split a source into coarse tokens (identifier-ish runs, numbers, single other characters),
 /// keeping everything so that concatenation gives the source back.
 pub fn coarse_tokens(src: &str) -> Vec<String> {
@@ -112,7 +123,7 @@ fn stdin_variants(rng: &mut Rng) -> Vec<Vec<u8>> {
 
 /// zyconf corpus-run OUT MUTANTS_PER_FILE MAX_STEPS
 pub fn corpus_run(out_path: &str, mutants: usize, max_steps: usize) {
-    let files = source_files();
+    let files = run_corpus_files();
     let seed = seed_from_env();
     let results: Vec<Vec<serde_json::Value>> = par_map_with(
         &files,
